@@ -38,6 +38,9 @@ import (
 // overlay shim, the way the package's own tests shorten it): honest doubles answer within well under a second.
 const harnessPeerTimeout = 3 * time.Second
 
+// proposeTimeout, when set, replaces the test configuration's propose timeout of the next node built.
+var proposeTimeout time.Duration
+
 const bcChannel = byte(0x40) // BlockchainChannel of all three reactor versions
 
 // bcReactor is what the harness needs from a block-sync reactor (v0, v1 and v2 all provide it).
@@ -160,6 +163,7 @@ type inMsg struct {
 // event is a response scheduled for delivery.
 type event struct {
 	due, prio, seq int
+	dueAt          time.Time // wall-clock cap of the delay (2 ms per tick): a starved driver must not turn a slow link into a dead one
 	d              *double
 	l              *lie
 	status         *bcproto.StatusResponse
@@ -269,6 +273,9 @@ func newNode(sc *scenario, chain *lib.Chain) (*node, error) {
 		return nil, err
 	}
 	ccfg := cfg.TestConsensusConfig()
+	if proposeTimeout > 0 {
+		ccfg.TimeoutPropose = proposeTimeout
+	}
 	ccfg.RootDir = tmp
 	ccfg.SetWalFile(filepath.Join(tmp, "cs.wal", "wal"))
 	n.cs = consensus.NewState(ccfg, st.Copy(), blockExec, n.blockStore, mp, evp)
@@ -399,6 +406,7 @@ func (n *node) statusOf(spec *peerSpec, kind string, arg int) *bcproto.StatusRes
 }
 
 func (n *node) schedule(e event) {
+	e.dueAt = time.Now().Add(time.Duration(e.due-n.tick) * 2 * time.Millisecond)
 	e.seq = n.evSeq
 	n.evSeq++
 	n.events = append(n.events, e)
@@ -510,7 +518,7 @@ func (n *node) step() {
 	}
 	var due, later []event
 	for _, e := range n.events {
-		if e.due <= n.tick {
+		if e.due <= n.tick || !time.Now().Before(e.dueAt) {
 			due = append(due, e)
 		} else {
 			later = append(later, e)
